@@ -130,8 +130,10 @@ def oracle_and_corr(ctx):
                 samples.append({'oracle': 'C13 strip', **case, 'stdout_bytes': len(out), 'ok': ok})
     # the prepend separator must be literal in both fields; it is appended to the strftime format before formatting
     for sc in [s for s in scs if not s.problems and s.msgs][:1] + [s for s in scs if s.name.startswith('wtmp') and not s.problems][:1]:
-        for ps in ('%H', '%'):
-            t = (None, False, 1, 0, ps, None, False)
+        # with and without a file-name field: the separator follows BOTH fields and only the datetime one goes through strftime
+        # (seeded change C13-e escaped the shared string once, so the file field printed `%%`)
+        for ps, fm_ in (('%H', None), ('%', None), ('%', '-n'), (' 100% ', '-p')):
+            t = (fm_, bool(fm_), 1, 0, ps, None, False)
             args = pc.tuple_args(t)
             rc, out, err, _ = sc.run(args)
             ev += 1
